@@ -47,6 +47,10 @@ func c05check(p *AllProject, r *rbT, files []string, srcs [][]byte, oi int) {
 			d = p.FindVarDefineInfo(files[o.file], &vs)
 		}
 		class := c05class(r, o)
+		if class == "" && col == o.loc.StartColumn && off >= 1+len(o.name) && src[off-1] == '=' && string(src[off-1-len(o.name):off-1]) == o.name {
+			// known defect: `{name=name}` written without blanks, cursor at the start of the value
+			class = "C05-unspaced-field-value"
+		}
 		verifObserve("query", o.name+" at "+strconv.Itoa(o.loc.StartLine)+":"+strconv.Itoa(col)+" decl "+strconv.Itoa(o.decl)+" answers "+strconv.Itoa(len(d)))
 		if o.decl >= 0 {
 			want := r.decls[o.decl]
